@@ -8,11 +8,16 @@ Descriptor (JSON):
               elaborate_frame dispatches on the code object, so both frames share ONE hook row: the row of
               the representative code_rep(f) (= f0); see eff_elab.  Frames stay distinct ids in the model.
   unwrap  {o: ["none"] | ["one", item] | ["seq", [item|null...], "tuple"|"list"]
-              | ["iter", [item...], raises] | ["raise"] | ["gen", f_own, item|null]
+              | ["iter", [item|null...], raises] | ["raise"] | ["gen", f_own, item|null]
               | ["gen2", f_own, o1]}   (a second instance of the generator function of "gen" object o1 > o:
                                         same code object, same delegation target, own frame f_own)
   elab    {f: [kind, payload, prehide]}  kind in none|seq|one|raise ; payload items are
               ["I", item] | ["N"] (the next_inner argument) | ["Z"] (None)
+          "iter": a @yields_frames hook whose iterator yields the entries in order (null = it yields None, an
+          absent link, legal at every position) and then stops or raises.  Abstraction to the model: a yielded
+          None contributes nothing, exactly like a None entry of a returned tuple/list, so the model input is
+          UIter over the non-null entries (c_cfg).  Each yielded None still costs one next() call, so null
+          entries are only generated where no faults are injected (gen_case(iter_none=True), C10).
   attr    {o: {"wref": bool}}   ("gen" objects are real generators: wref, gent, own frame)
   ctxs    {f: ["ok", [cid...]] | ["raise"]}        fill {cid: ["ok", [item...]] | ["raise"]}
   faults  [tick...]   with_ctx bool   root item   mode "extract"|"outermost"
@@ -127,9 +132,20 @@ def share_code(case, p_same=0.35, p_gen2=0.5):
     return case
 
 
+def sprinkle_iter_none(unwrap, p=0.6):
+    """Insert None entries into iterator results at random positions (first, middle, last, several); own
+    deterministic RNG so that the caller's random stream is untouched."""
+    import json
+    rng = random.Random("iter-none:" + json.dumps(unwrap, sort_keys=True))
+    for sp in unwrap.values():
+        if sp[0] == "iter" and rng.random() < p:
+            for _ in range(rng.choice([1, 1, 2, 3])):
+                sp[1].insert(rng.randrange(len(sp[1]) + 1), None)
+
+
 # ----------------------------------------------------------------- generation
 def gen_case(rng: random.Random, nf=5, no=5, *, faults=0, with_ctx=False, gens=False,
-             weird=True, mode="extract", samecode=True, gen2=False):
+             weird=True, mode="extract", samecode=True, gen2=False, iter_none=False):
     """Rank-ordered (acyclic) random tables; the last object may carry the linear self-loop."""
     def ritem(lo=-1, allow_frames=True):
         cands = [["O", i] for i in range(lo + 1, no)]
@@ -224,6 +240,8 @@ def gen_case(rng: random.Random, nf=5, no=5, *, faults=0, with_ctx=False, gens=F
                 cid += 1
             ctxs[str(f)] = ["ok", ids]
     fl = sorted(set(rng.randrange(0, 25) for _ in range(faults)))
+    if iter_none and not faults:
+        sprinkle_iter_none(unwrap)
     case = {"nf": nf, "no": no, "frames": frames, "unwrap": unwrap, "elab": elab, "attr": attr,
             "ctxs": ctxs, "fill": fill, "faults": fl, "with_ctx": with_ctx,
             "root": ritem(), "mode": mode}
@@ -287,6 +305,7 @@ def gen_dense(rng: random.Random, nf=7, no=4):
             elab[str(f)] = ["one", ["N"], ph]
         else:
             elab[str(f)] = ["raise", None, ph]
+    sprinkle_iter_none(unwrap)
     return share_code({"nf": nf, "no": no, "frames": {str(f): ["plain"] for f in range(nf)}, "unwrap": unwrap,
                        "elab": elab, "attr": {}, "ctxs": {}, "fill": {}, "faults": [], "with_ctx": False,
                        "root": ["O", 0], "mode": "extract"})
@@ -418,7 +437,7 @@ def run_impl(case):
         elif spec[0] == "iter":
             def gen(x, s=spec, o=o):
                 for i in s[1]:
-                    yield conv(i)
+                    yield None if i is None else conv(i)
                 if s[2]:
                     raise Boom("iter", o)
             _CURRENT[classes[o]] = yields_frames(gen)
@@ -638,7 +657,8 @@ def c_cfg(case, guards="all_guards", uguard="100"):
         elif s[0] == "seq":
             v = "(USeq " + clist(["None" if i is None else f"(Some {c_item(i)})" for i in s[1]]) + ")"
         elif s[0] == "iter":
-            v = f"(UIter {clist([c_item(i) for i in s[1]])} {cbool(s[2])})"
+            # a yielded None is skipped like a None entry of a sequence (see module docstring)
+            v = f"(UIter {clist([c_item(i) for i in s[1] if i is not None])} {cbool(s[2])})"
         elif s[0] in ("gen", "gen2"):
             tgt = s[2] if s[0] == "gen" else case["unwrap"][str(s[2])][2]
             v = "(USeq " + clist([f"(Some (IPy {s[1]}))", "None" if tgt is None else f"(Some {c_item(tgt)})"]) + ")"
